@@ -440,6 +440,18 @@ def rule_regret_update(ctx):
                     # the target is the per-action cumulative regret item
                     tgt = strip_refs(e[2][0])
                     okadd = okadd and q.find_sub(tgt, lambda s: s[0] == 'param' and s[1] == 5) is not None
+            # every action is accumulated: inside the loop over the actions the update is not conditional on data
+            for bi, t, e in adds:
+                lp = f.loop_of(bi)
+                extra = []
+                for c in f.conds(bi):
+                    if lp is None or c['switch'] not in lp[1]:
+                        continue
+                    if c['kind'] == 'variant':
+                        continue        # iterator protocol
+                    extra.append('%s(%s) edge %s @ line %s' % (c['kind'], facts.show(c['a'])[:50], c.get('truth'), c['line']))
+                ctx.verdict(not extra, rule, rule + ':every-action-updated', 'inside the loop over the actions of a node the regret update of an action is unconditional (an action with zero reach still has a counterfactual value)', f.where(bi),
+                            'data-dependent guards on the update: %s' % extra, breaks='actions whose probability dropped to zero stop accumulating regret and can never come back: the bound shrinks while the true regret does not')
             ctx.verdict(okadd, rule, rule + ':per-action-accumulation', 'each action\'s cumulative regret receives (+1) * child value * multiplier', f.where(adds[0][0]) if adds else f.where(0), 'recognised: %s' % okadd,
                         breaks='the counterfactual value of an action is accumulated with another weight')
             # returned pair: (sum prob*util_one, sum util*prob)
